@@ -139,6 +139,9 @@ class Combinatoric(numbers.Number):
         result_ds = []
         ns = self.ns + new_ns
         ds = self.ds + new_ds
+        if any(d.lo <= 0 <= d.hi for d in ds):
+            # A zero divisor must not be cancelled against a zero factor.
+            raise ZeroDivisionError("zero factor in denominator")
         while ds:
             d = ds.pop()
             i = 0
